@@ -177,7 +177,7 @@ def query_set(seeks, sinces, prefixes, keyiters=(), internal=False, dirs=("FALSE
     return " \\cup ".join(parts)
 
 
-def gen_store(c, name, consts, workers=4, timeout=900, check_theorems=True):
+def gen_store(c, name, consts, workers=4, timeout=3000, check_theorems=True):
     """Run KVIterGen exhaustively; returns store cases grouped by store: each has the runs
     (pending sequence + gets + queries) generated for it."""
     d = vlib.stage_specs(["kv"])
@@ -220,7 +220,7 @@ def gen_store(c, name, consts, workers=4, timeout=900, check_theorems=True):
     return out, len(res.cases)
 
 
-def replay(c, cases, config, seed, label, timeout=1200, nproc=None, keys=None, mode="hist", flags=(),
+def replay(c, cases, config, seed, label, timeout=3600, nproc=None, keys=None, mode="hist", flags=(),
            cwd=None, sig_prefix="kv", max_report=3, collect=None, tmpdir=None):
     """Replay cases with kvreplay under a DB configuration; report mismatches as violations
     (after re-running the failing case once from a clean state).
@@ -316,7 +316,7 @@ def rerun_one(base, case, d, cwd=None):
     if "-trace" in cmd:
         k = cmd.index("-trace")
         del cmd[k:k + 2]
-    rc, out, err, _ = vlib.run(cmd + ["-in", inp], timeout=300, env=env, cwd=cwd)
+    rc, out, err, _ = vlib.run(cmd + ["-in", inp], timeout=1200, env=env, cwd=cwd)
     if rc != 0 or not out.strip():
         return None
     return json.loads(out.strip().splitlines()[0])
@@ -345,15 +345,21 @@ def classify(case, r):
         tags.append("older-version-written-later")
     if any(s["op"] in ("commit", "commitAt") and s.get("res") in ("blocked", "closed") for s in prefix):
         tags.append("after-rejected-commit")
+    # a value-log GC rewrite (which writes live entries back through the write path, i.e. copies an
+    # old version into the newest memtable) followed by a compaction
+    gc_at = [i for i, s in enumerate(prefix) if s["op"] == "env" and s["what"] == "gc"]
+    if gc_at and any(s["op"] == "env" and (s["what"].startswith("compact") or s["what"] == "reopenCompact")
+                     for s in prefix[gc_at[0] + 1:]):
+        tags.append("gc-then-compaction")
     return " ".join(tags)
 
 
 # --------------------------------------------------------------------------- trace validation (Threshold)
-def validate_threshold_trace(c, trace_files, label, timeout=600):
+def validate_threshold_trace(c, trace_files, label, timeout=2400):
     """Concatenate the per-shard decision traces and validate them with TLC against
     specs/kv/ThresholdTrace.tla. Returns (#lines, #segments, rejected_line_or_None)."""
     d = vlib.stage_specs(["kv"])
-    n = segs = puts = 0
+    n = segs = puts = decides = 0
     with open(os.path.join(d, "trace.ndjson"), "w") as out:
         for tf in trace_files:
             if not os.path.exists(tf):
@@ -364,20 +370,21 @@ def validate_threshold_trace(c, trace_files, label, timeout=600):
                     n += 1
                     segs += '"ev":"reset"' in line
                     puts += '"ev":"put"' in line
+                    decides += '"ev":"decide"' in line
     if n == 0:
         raise Inconclusive("no decision trace recorded (%s)" % label)
     write_model(d, "ThrTrace", "ThresholdTrace", {}, "TraceSpec", constraint="HighWater", postcondition="Accepted")
     res = vlib.run_tlc(d, "ThrTrace", "ThrTrace.cfg", workers=1, timeout=timeout, dfs_queue=True)
     c.cov["tlc_runs"].append({"config": "trace:" + label, "mode": "trace-validation", "lines": n, "segments": segs,
-                              "put_events": puts, "distinct_states": res.distinct, "wall_s": round(res.wall, 1),
+                              "put_events": puts, "vlog_decide_events": decides, "distinct_states": res.distinct, "wall_s": round(res.wall, 1),
                               "ok": res.ok})
     if res.ok:
         c.cov["states"] += res.distinct
         c.cov["transitions"] += res.generated
         return n, segs, puts, None
-    m = re.search(r'<<"REJECTED_AT", (\d+), (.*)>>', res.out)
+    m = re.search(r'<<\s*"REJECTED_AT",\s*(\d+),\s*(.*?)>>\s*\n', res.out, re.S)
     if res.violation == "postcondition" or m:
-        return n, segs, puts, (int(m.group(1)), m.group(2)[:400]) if m else (-1, res.out[-600:])
+        return n, segs, puts, (int(m.group(1)), " ".join(m.group(2).split())[:400]) if m else (-1, res.out[-600:])
     if res.timeout:
         raise Inconclusive("trace validation timed out (%s)" % label)
     raise Inconclusive("trace validation failed to run (%s): %s" % (label, (res.error_trace or res.out)[-2000:]))
